@@ -770,7 +770,9 @@ Lemma accept_inv nl st tok ys :
   Inv nl None st -> nf_ys ys = true -> tok < nl ->
   exists st' ys', accept L st tok ys = (st', ys') /\ Post nl st ys st' ys'.
 Proof.
-  intros HI Hys Htok. unfold accept. apply accept_loop_inv; auto.
+  intros HI Hys Htok. unfold accept.
+  destruct (paused st); [exists st, ys; split; [reflexivity|now apply Post_refl]|].
+  apply accept_loop_inv; auto.
   unfold accept_fuel, lmeas. pose proof (Inv_lsts_len _ _ _ HI) as Hnl.
   destruct (nth_error_lt_Some (lsts st) tok ltac:(lia)) as [l Hl]. rewrite Hl. lia.
 Qed.
